@@ -56,7 +56,7 @@ _UUID = re.compile(r"-?[0-9a-f]{8}-[0-9a-f]{4}-[0-9a-f]{4}-[0-9a-f]{4}-[0-9a-f]{
 _HEX = re.compile(r"-?[0-9a-f]{16,}")
 # dask tasks that run repository code get their own simulated thread; everything else
 # (getitem / transpose / reshape / finalize bookkeeping) runs inline
-THREADED_NAME = re.compile(r"^(vectorize__run_pipelines_tuple_to_array|evolve|_apply_parameters|_save_data_2d|user_\w+)$|vectorize_fitness")
+THREADED_NAME = re.compile(r"^(vectorize__run_pipelines_tuple_to_array|evolve|_save_data_2d|user_\w+)$|vectorize_fitness|apply_parameters")
 
 
 def canonical_name(name) -> str:
